@@ -159,6 +159,14 @@ def run(ctx):
         ignore = rng.random() < .3
         sim, chart = build(simkind, version, chartkind, st, None, None, sim_d, ch_d)
         if rng.random() < .5: sim["BPMS"] = "0.000=100.000,4.000=%s,8.000=%s" % (rng.choice(["50", "250.5"]), rng.choice(["75", "300"]))
+        # the displayed BPM reads BPMS alone: warps (and stops) lying over whole BPM segments of the chosen source change nothing
+        if chart is not None and chart.get("BPMS") and rng.random() < .5:
+            chart["BPMS"] = "0.000=200.000,4.000=%s,8.000=%s,9.000=%s" % (rng.choice(["960", "25.5"]), rng.choice(["150", "400"]), rng.choice(["200", "90"]))
+        if rng.random() < .5:
+            w = rng.choice(["4.000=4.000", "3.000=6.000", "0.000=9.000", "4.000=1.000,8.000=1.000", "8.000=2.000", "0.000=4.000"])
+            sim["WARPS"] = w
+            if chart is not None and chart.get("WARPS"): chart["WARPS"] = w
+            if rng.random() < .3: sim["STOPS"] = "4.000=1.000,8.000=2.000"
         uses = rule_uses_chart(simkind, version, chartkind, st)
         source = chart if uses else sim
         if not source.get("BPMS"): continue      # the clause assumes a non-empty BPMS in the chosen source
